@@ -41,6 +41,11 @@ func genRec(cfg Config, emit func(string, bool, []string)) {
 		r := newRand(cfg.Seed, uint64(1400+c))
 		var ops []string
 		add := func(f string, a ...any) { ops = append(ops, fmt.Sprintf(f, a...)) }
+		if c%50 == 44 {
+			add("tinybackoff %d %d", []int{1, 1000, 20000}[r.IntN(3)], 1+r.IntN(3))
+			emit("rec realtime tiny-backoff", true, ops)
+			continue
+		}
 		minB := []int{50, 100, 100, 200}[r.IntN(4)]
 		maxB := minB * []int{1, 2, 8, 16}[r.IntN(4)]
 		roundSize := []int{1000, 1000, 1, 2, 3}[r.IntN(5)]
@@ -335,6 +340,8 @@ type recCall struct {
 }
 
 type recExec struct {
+	tinyNs   int
+	failOnce map[uint64]bool
 	round   int
 	lastTxn statedb.ReadTxn
 	o             *Out
@@ -469,7 +476,8 @@ func (e *recExec) noteTxn(txn statedb.ReadTxn) {
 func (e *recExec) doUpdate(rev statedb.Revision, obj *recObj) error {
 	e.sampleLW()
 	e.mu.Lock()
-	fail := e.failing[obj.ID]
+	fail := e.failing[obj.ID] || e.failOnce[obj.ID]
+	delete(e.failOnce, obj.ID)
 	inj := e.injects[obj.ID]
 	delete(e.injects, obj.ID)
 	st := obj.GetStatus()
@@ -568,6 +576,9 @@ func (e *recExec) setup(minB, maxB, roundSize int, batch bool) {
 	e.delRev = map[uint64]uint64{}
 	e.failStreak = map[uint64][]time.Duration{}
 	e.minB, e.maxB = time.Duration(minB)*time.Millisecond, time.Duration(maxB)*time.Millisecond
+	if e.tinyNs > 0 {
+		e.minB, e.maxB = time.Duration(e.tinyNs), time.Duration(e.tinyNs)
+	}
 	e.roundSize, e.batch = roundSize, batch
 	e.log = slog.New(slog.NewTextHandler(io.Discard, nil))
 	ops := recOps{e}
@@ -1064,8 +1075,56 @@ func (e *recExec) settleOracle(o *Out) {
 	}
 }
 
+// tinybackoff <ns> <n>: REAL time (outside the synctest bubble). A reconciler whose retry backoff is
+// a few nanoseconds: the retry queued by the first status commit of a round is already due when the
+// same round looks at the retry queue, so it is processed against the round's OLD snapshot. n objects
+// each fail once and then succeed; within ten seconds every object must be Done in the target.
+func (e *recExec) tinyBackoff(o *Out, ns, n int) string {
+	e.tinyNs = ns
+	e.failOnce = map[uint64]bool{}
+	e.setup(1, 1, 1000, false)
+	for id := uint64(1); id <= uint64(n); id++ {
+		e.mu.Lock()
+		e.failOnce[id] = true
+		e.mu.Unlock()
+		e.put(id, int(10+id))
+		time.Sleep(2 * time.Millisecond)
+	}
+	deadline := time.Now().Add(10 * time.Second)
+	for {
+		done := 0
+		txn := e.db.ReadTxn()
+		for obj := range e.table.All(txn) {
+			e.mu.Lock()
+			t := e.target[obj.ID]
+			e.mu.Unlock()
+			if obj.GetStatus().Kind == reconciler.StatusKindDone && t.present && t.data == obj.Data {
+				done++
+			}
+		}
+		if done == n {
+			return "converged"
+		}
+		if time.Now().After(deadline) {
+			var st []string
+			for obj := range e.table.All(txn) {
+				st = append(st, fmt.Sprintf("%d:%s", obj.ID, obj.GetStatus().Kind))
+			}
+			o.Fail("C14", "not-converged", map[string]string{"tiny_backoff": "true"},
+				fmt.Sprintf("retry backoff %dns, %d objects that each fail once: ten seconds after the last write the statuses are [%s], the target holds %d of them: a failed object was forgotten", ns, n, strings.Join(st, " "), done))
+			return "not-converged"
+		}
+		time.Sleep(5 * time.Millisecond)
+	}
+}
+
 func (e *recExec) Do(o *Out, f []string) string {
 	e.o = o
+	if f[0] == "tinybackoff" && len(f) == 3 && e.db == nil {
+		ns, _ := strconv.Atoi(f[1])
+		n, _ := strconv.Atoi(f[2])
+		return e.tinyBackoff(o, ns, n)
+	}
 	if e.db == nil && f[0] != "cfg" {
 		return "bad-op" // only in shrunk sequences: nothing is set up yet
 	}
